@@ -10,6 +10,7 @@ import re
 import subprocess
 import sys
 import tempfile
+import warnings
 from pathlib import Path
 
 from harness import core
@@ -20,6 +21,7 @@ MODULE = "CddVerif.Properties.C06"
 THEOREMS = [
     "C06.required_iff_not_optional",
     "C06.emitted_valid",
+    "C06.emitted_invalid_for_metacharacter_member",
     "C06.default_validates",
     "C06.literal_becomes_pattern",
     "C06.pattern_accepts_iff_contains_member",
@@ -27,6 +29,7 @@ THEOREMS = [
     "C06.pattern_not_exact",
     "C06.roundtrip",
     "C06.roundtrip_drops_none_default",
+    "C06.roundtrip_splits_bar_member",
     "C06.emit_ok_iff",
     "C06.emits",
     "C06.tables_cover_domain",
@@ -144,6 +147,9 @@ def run_vt(schemas: list, validate: list, nproc: int = core.NCPU) -> tuple[list,
 # ----------------------------------------------------------------------------------------------------------------
 # the property's own oracle, on the real outputs
 # ----------------------------------------------------------------------------------------------------------------
+warnings.filterwarnings("ignore", category=SyntaxWarning)  # literal_eval of type strings the parser rebuilt without escaping
+
+
 def typ_view(s):
     """Type string → (optional, core) with Literal members as a frozenset; whitespace runs collapsed."""
     if not isinstance(s, str):
@@ -175,6 +181,8 @@ def pattern_probes(members: list) -> list:
     probes = []
     for m in members[:3]:
         probes += [("super", "x" + m + "x"), ("super", m + "_"), ("super", "q " + m), ("prefix", m[:-1]), ("double", m + m)]
+        if "." in m:
+            probes.append(("meta", m.replace(".", "x")))
     probes += [("other", ""), ("other", "zzz_not_a_member"), ("other", "|")]
     out, seen = [], set()
     for kind, s in probes:
@@ -226,7 +234,8 @@ def oracle_static(S, r):
         return fails
     for (nm, sp), (_, pp) in zip(S["params"], p["params"]):
         if typ_view(g.render_typ(sp["typ"])) != typ_view(pp["typ"]):
-            fails.append(({"kind": "roundtrip", "field": "typ", "from": _tk(sp["typ"]), "to": "other"},
+            fails.append(({"kind": "roundtrip", "field": "typ", "from": _tk(sp["typ"]), "to": "other",
+                           "region": g.lit_region(sp["typ"]) if "lit" in sp["typ"] else "domain"},
                           "%s: typ %r → %r" % (nm, g.render_typ(sp["typ"]), pp["typ"])))
         want_doc = [] if sp["doc"] is None else [sp["doc"]]
         if pp["doc"] != want_doc:
@@ -252,7 +261,8 @@ def oracle_static(S, r):
                 fails.append(({"kind": "roundtrip", "field": "default", "from": d[0], "to": "absent" if not got else "other"},
                               "%s: default %s → %s" % (nm, typed(want), typed(got[0]) if got else "absent")))
         if pp["extra"]:
-            fails.append(({"kind": "roundtrip", "field": "extra-keys"}, "%s: extra keys after the round trip: %r" % (nm, pp["extra"])))
+            fails.append(({"kind": "roundtrip", "field": "extra-keys", "region": g.lit_region(sp["typ"]) if "lit" in sp["typ"] else "domain"},
+                          "%s: extra keys after the round trip: %r" % (nm, pp["extra"])))
     if norm_ws(p["doc"]) != norm_ws(S["doc"]):
         fails.append(({"kind": "roundtrip", "field": "doc"}, "doc %r → %r" % (S["doc"], p["doc"])))
     sr, pr = S["returns"], p["returns"]
@@ -271,18 +281,21 @@ def oracle_static(S, r):
 
 
 def oracle_validation(S, kind, nm, prop_schema, inst, res):
-    """One observation of the validator (jsonschema in python3-vt) → None or (signature, text)."""
+    """One observation of the validator (jsonschema in python3-vt) → None or (signature, text).
+    region = "regex-metacharacter-member" when a member of this Literal has a character with a special meaning in a
+    regular expression (the emitter does not escape), else "plain"."""
+    t = dict(S["params"])[nm]["typ"]
+    region = "regex-metacharacter-member" if "lit" in t and g.has_meta(t["lit"]) else "plain"
     if kind == "default" and res is not True:
-        return ({"kind": "default-does-not-validate", "typ": _tk(dict(S["params"])[nm]["typ"])},
-                "%s: default %r does not validate against %r" % (nm, inst, prop_schema))
+        return ({"kind": "default-does-not-validate", "typ": _tk(t), "region": region},
+                "%s: default %r does not validate against %r (%s)" % (nm, inst, prop_schema, res))
     if kind == "member" and res is not True:
-        return ({"kind": "pattern-rejects-member"}, "%s: member %r rejected by %r" % (nm, inst, prop_schema.get("pattern")))
+        return ({"kind": "pattern-rejects-member", "region": region}, "%s: member %r rejected by %r (%s)" % (nm, inst, prop_schema.get("pattern"), res))
     if kind.startswith("probe") and res is True:
-        ms = dict(S["params"])[nm]["typ"]["lit"]
-        how = "contains-member" if any(m in inst for m in ms) else "other"
+        ms = t["lit"]
+        how = "contains-member" if any(m in inst for m in ms) else "regex-metacharacter" if region != "plain" else "other"
         return ({"kind": "pattern-accepts-nonmember", "how": how},
-                "%s: %r is not one of %s but validates against pattern %r (re.search: %s)" % (
-                    nm, inst, ms, prop_schema.get("pattern"), re.search(prop_schema.get("pattern", ""), inst) is not None))
+                "%s: %r is not one of %s but validates against pattern %r" % (nm, inst, ms, prop_schema.get("pattern")))
     return None
 
 
@@ -305,6 +318,25 @@ def validation_pairs(S, schema):
                 pairs.append([ps, x])
                 src.append(("probe:" + how, nm, x))
     return pairs, src
+
+
+def plain_pat(p) -> bool:
+    """Is `p` a pattern whose meaning the model vouches for (alternation of literal, metacharacter-free strings)?"""
+    return isinstance(p, str) and all(0x20 <= ord(c) < 0x7F and (c == "|" or c not in g.META) for c in p)
+
+
+def plain_schema(schema) -> bool:
+    props = schema.get("properties") if isinstance(schema, dict) else None
+    if not isinstance(props, dict):
+        return True
+    return all(not isinstance(ps, dict) or "pattern" not in ps or plain_pat(ps["pattern"]) for ps in props.values())
+
+
+def gen_plain_member(r):
+    while True:
+        m = g.gen_member(r)
+        if m and plain_pat(m) and "|" not in m:
+            return m
 
 
 def _tk(t):
@@ -459,13 +491,28 @@ WITNESSES = [
     ("C06-pattern-unanchored", {"name": "F", "doc": "", "params": [["a", P(lit(["alpha", "beta"]))]], "returns": None}),
     ("C06-none-default-dropped", {"name": "F", "doc": "", "params": [["a", P(base("int", True), None, ["n"])]], "returns": None}),
     ("C06-return-doc-wrapped-inside-word", {"name": "F", "doc": "", "params": [], "returns": {"typ": base("int"), "doc": "a" * 80 + " bbbbbbbb-cccccccc"}}),
+    # the emitter writes the members into the pattern unescaped, the parser splits on "|" and re-quotes with '{}'
+    ("C06-pattern-unescaped-invalid-regex", {"name": "F", "doc": "", "params": [["a", P(lit(["a(b", "c"]))]], "returns": None}),
+    ("C06-pattern-unescaped-rejects-member", {"name": "F", "doc": "", "params": [["a", P(lit(["a.b", "c+d"]))]], "returns": None}),
+    ("C06-pattern-unescaped-default", {"name": "F", "doc": "", "params": [["a", P(lit(["a.b", "c+d"]), None, ["s", "c+d"])]], "returns": None}),
+    ("C06-pattern-unescaped-accepts-nonmember", {"name": "F", "doc": "", "params": [["a", P(lit(["a.b", "c"]))]], "returns": None}),
+    ("C06-member-with-bar", {"name": "F", "doc": "", "params": [["a", P(lit(["a|b", "c"]))]], "returns": None}),
+    ("C06-member-with-quote-or-backslash", {"name": "F", "doc": "", "params": [["a", P(lit(["it's", "x"]))]], "returns": None}),
+    ("C06-only-empty-member", {"name": "F", "doc": "", "params": [["a", P(lit([""]))]], "returns": None}),
+    ("C06-member-containing-Optional-text", {"name": "F", "doc": "", "params": [["a", P(lit(["Optional[x]", "y"], True))]], "returns": None}),
 ]
+WRAP_WITNESS = "C06-return-doc-wrapped-inside-word"
 FIXED = [
     {"name": "F", "doc": "", "params": [], "returns": None},
     # one-member Literals: the emitter raised AttributeError on these before the fix: commit (C06-single-member-literal)
     {"name": "F", "doc": "", "params": [["a", P(lit(["alpha"]))]], "returns": None},
     {"name": "F", "doc": "One.", "params": [["a", P(lit(["alpha"], True), "d", ["s", "alpha"])], ["b", P(lit(["x_1"]), None, ["s", "x_1"])]],
      "returns": {"typ": lit(["only"]), "doc": None}},
+    # Literal members outside [A-Za-z0-9_]: hyphen, blank, dot, plus, parentheses, the empty string next to others
+    {"name": "F", "doc": "", "params": [["a", P(lit(["pre-release", "stable", "long term"]), None, ["s", "long term"])]], "returns": None},
+    {"name": "F", "doc": "", "params": [["a", P(lit(["a.b", "c+d"], True), "dots and plus")], ["b", P(lit(["x (beta)", "C++", ""]))]], "returns": None},
+    {"name": "F", "doc": "Release channel.", "params": [["channel", P(lit(["pre-release", "e-mail", "50%", "key=value", "#1"], True), "which", ["s", "e-mail"])]],
+     "returns": {"typ": base("str"), "doc": "the channel"}},
     {"name": None, "doc": "Summary line.", "params": [["a", P(base("int"), "the a", ["i", 5])], ["b", P(base("str", True), "bb")],
                                                       ["c", P(lit(["x_1", "alpha", "b2"]), None, ["s", "alpha"])], ["d", P(lit(["beta", "alpha"], True))]],
      "returns": {"typ": base("int"), "doc": "the result"}},
@@ -569,7 +616,8 @@ def run(chk: core.Check) -> int:
         "model lean/CddVerif/Model/JsonSchema.lean: types are a structural grammar (six names, Literal[str..], Optional[..]) — the code's string predicates on the type string are structural tests; Typ.render is compared with the string handed to the real code on every case",
         "the top-level `description` (docstring emit/parse, textwrap) is a *reference* model on the trigger-free prose domain (printable ASCII, none of the 12 docstring tokens, no edge blanks, return entry ≤ 100 columns); outside it only the oracle on the real code speaks",
         "validSchema is a fragment of the 2020-12 meta-schema ($id $schema description type properties required default pattern format + unknown keywords); tied to jsonschema.Draft202012Validator.check_schema (python3-vt) on emitted schemas and mutants; regular expressions only of word characters, '|' and blank; `format` assertions of the meta-schema other than `regex` are not modelled",
-        "regex semantics: re.search for alternations of literal word-character strings (patAccepts), tied to Python's re and to jsonschema's `pattern` on generated pairs",
+        "regex semantics: re.search for alternations of literal strings without regular-expression metacharacters (patAccepts; printable ASCII minus . ^ $ * + ? { } [ ] \\ | ( )), tied to Python's re and to jsonschema's `pattern` on generated pairs; patterns with metacharacters (emitted unescaped) are observed on the real code only",
+        "Literal members: Typ.render quotes them as '…' (what the parser rebuilds); the harness hands Python's repr to the real code — equal on the domain (no ' and no backslash); return-type Literals keep word-character members (they travel through the docstring)",
         "float defaults: finite decimals without exponent whose repr round-trips; NaN/Infinity are outside the domain",
         "the interface view excludes the function name (DESIGN §3): parse returns name None for every emitted schema ($id is not read back)",
     ]
@@ -588,7 +636,7 @@ def run(chk: core.Check) -> int:
 
     # ---- (1) cases ----------------------------------------------------------------------------------------------
     n_dom, n_wrap, n_edge = (1500, 150, 120) if chk.quick else (20000, 1500, 1000)
-    cases = [("witness", S) for _, S in WITNESSES] + [("domain", S) for S in FIXED]
+    cases = [("witness-wrap" if fid == WRAP_WITNESS else "witness", S) for fid, S in WITNESSES] + [("domain", S) for S in FIXED]
     for n in range(0, 9):  # every parameter count of the quantifier at least a few times
         for _ in range(3):
             cases.append(("domain", g.gen_S(rng, nparams=n)))
@@ -624,17 +672,18 @@ def run(chk: core.Check) -> int:
         if k in (1, 2, len(WITNESSES) + 1, len(WITNESSES) + 2, len(WITNESSES) + 40, len(WITNESSES) + 41):
             chk.sample({"stream": stream, "ir": g.to_py_ir(S) and json.loads(json.dumps(g.to_py_ir(S), default=repr)),
                         "emitted": None if "schema" not in r else g.from_wire(r["schema"]) if not _has_bang(r["schema"]) else "non-JSON"})
-        if m is None or stream == "wrap" or (stream == "witness" and not in_dom):
+        if m is None or stream in ("wrap", "witness-wrap"):
             continue
         if "error" in m:
             raise core.HarnessError("c06.emit: %s" % m["error"])
         n_cmp += 1
-        if stream == "domain" and not in_dom:
-            raise core.HarnessError("generator left the model's domain: %s" % json.dumps(S))
+        if stream == "domain" and in_dom != g.S_in_domain(S):
+            raise core.HarnessError("generator and model disagree about the domain (model %s): %s" % (in_dom, json.dumps(S)))
         rtyps = [g.render_typ(p["typ"]) for _, p in S["params"]]
         a = {"raises": True} if "emit_raises" in r else g.canon_schema(r.get("schema")) if "schema" in r else {"no-result": True}
         b = {"raises": True} if "raises" in m else g.canon_schema(m["schema"])
-        if a != b or m["typs"] != rtyps or (S["returns"] is not None and m["ret_typ"] != g.render_typ(S["returns"]["typ"])):
+        # Typ.render quotes members as '…' (what the parser rebuilds); Python's repr agrees on the domain (no ' and no \)
+        if a != b or (in_dom and m["typs"] != rtyps) or (S["returns"] is not None and m["ret_typ"] != g.render_typ(S["returns"]["typ"])):
             n_dis += 1
             chk.disagreement("C06 correspondence: json_schema emit", {"S": S}, a, b)
     chk.oblige("correspondence: cdd.json_schema.emit.json_schema = JsonSchema.emit (dict equal; Typ.render = type string) on %d interfaces" % n_cmp,
@@ -646,10 +695,10 @@ def run(chk: core.Check) -> int:
     emitted = [(k, g.from_wire(r["schema"])) for k, r in enumerate(impl) if isinstance(r, dict) and "schema" in r and not _has_bang(r["schema"])]
     parse_inputs = []  # (kind, wire, real canon)
     for k, schema in emitted:
-        if cases[k][0] == "edge" or (model is not None and model[k].get("in_domain")):  # the description model speaks on its domain only
+        if cases[k][0] in ("domain", "edge", "witness"):  # the description model speaks on its domain only (not: word-wrapped entries)
             parse_inputs.append(("emitted", impl[k]["schema"], impl[k]["parsed"]))
     n_pm = 700 if chk.quick else 12000
-    dom_emitted = [(k, s) for k, s in emitted if cases[k][0] == "domain"]
+    dom_emitted = [(k, s) for k, s in emitted if cases[k][0] == "domain" and plain_schema(s)]  # mutants start from vouched-for patterns
     pm = []
     for _ in range(n_pm):
         k, schema = rng.choice(dom_emitted)
@@ -710,10 +759,10 @@ def run(chk: core.Check) -> int:
         if rng.random() < 0.9:
             ps["type"] = rng.choice(SIMPLE_TYPES)
         if rng.random() < 0.4:
-            ps["pattern"] = "|".join(g.gen_member(rng) for _ in range(rng.randint(1, 3))) if rng.random() < 0.8 else rng.choice(["a||b", "", "|", "a|"])
+            ps["pattern"] = "|".join(gen_plain_member(rng) for _ in range(rng.randint(1, 3))) if rng.random() < 0.8 else rng.choice(["a||b", "", "|", "a|"])
         if rng.random() < 0.3:
             ps["description"] = "d"
-        inst = rng.choice(inst_pool) if rng.random() < 0.7 else g.gen_member(rng)
+        inst = rng.choice(inst_pool) if rng.random() < 0.7 else g.gen_member(rng)  # any string is an instance
         if rng.random() < 0.3:
             ps["default"] = inst
         pairs.append([ps, inst])
@@ -730,6 +779,9 @@ def run(chk: core.Check) -> int:
         n_dis = 0
         tally = {"emitted/valid": 0, "emitted/invalid": 0, "mutant/valid": 0, "mutant/invalid": 0}
         for (kind, k, ops), s, res, m in zip(sch_src, schemas_json, vs, mv):
+            if not plain_schema(s):
+                tally["emitted/metacharacter-pattern (oracle only)"] = tally.get("emitted/metacharacter-pattern (oracle only)", 0) + 1
+                continue
             ok = res is True
             tally["%s/%s" % (kind, "valid" if ok else "invalid")] += 1
             chk.count(("valid", json.dumps(s, sort_keys=True, default=repr)), kind == "mutant")
@@ -747,6 +799,9 @@ def run(chk: core.Check) -> int:
         for src, (a, b), res, m in zip(pair_src, pairs, vv, mvv):
             if "error" in m:
                 raise core.HarnessError("c06.validates: %s" % m["error"])
+            if "pattern" in a and not plain_pat(a["pattern"]):
+                tally["metacharacter-pattern (oracle only)"] = tally.get("metacharacter-pattern (oracle only)", 0) + 1
+                continue
             key = "%s/%s" % (src[0].split(":")[0], "valid" if res is True else "invalid")
             tally[key] = tally.get(key, 0) + 1
             chk.count(("validates", json.dumps([a, b], sort_keys=True)), True)
@@ -759,8 +814,8 @@ def run(chk: core.Check) -> int:
         # regex op against Python's re
         pats = []
         for _ in range(2000 if chk.quick else 30000):
-            ms = [g.gen_member(rng) if rng.random() < 0.9 else "" for _ in range(rng.randint(1, 4))]
-            s = rng.choice(ms) if rng.random() < 0.3 else rng.choice(["", "x", "zzz"]) + g.gen_member(rng) + rng.choice(["", "_", "x y"])
+            ms = [gen_plain_member(rng) if rng.random() < 0.9 else "" for _ in range(rng.randint(1, 4))]
+            s = rng.choice(ms) if rng.random() < 0.3 else rng.choice(["", "x", "zzz"]) + (rng.choice(ms) if rng.random() < 0.5 else g.gen_member(rng)) + rng.choice(["", "_", "x y"])
             if rng.random() < 0.3:
                 s = s[: max(0, len(s) - 1)]
             pats.append(("|".join(ms), s))
@@ -781,7 +836,7 @@ def run(chk: core.Check) -> int:
             continue
         fails_by_case[k] = oracle_static(S, r)
         if "schema" in r and k in meta_ok and meta_ok[k] is not True:
-            fails_by_case[k].append(({"kind": "invalid-schema", "why": _why(meta_ok[k])}, "check_schema: %s" % meta_ok[k]))
+            fails_by_case[k].append(({"kind": "invalid-schema", "why": _why(meta_ok[k]), "region": _schema_region(S)}, "check_schema: %s" % meta_ok[k]))
     for (kind, k, nm, x), (a, b), res in zip(pair_src, pairs, vv):
         if k is None:
             continue
@@ -810,12 +865,18 @@ def run(chk: core.Check) -> int:
     except Exception as e:  # noqa
         chk.notes.append("line coverage not measured: %r" % e)
     return chk.finish("interfaces from the JSON-representable domain (0..8 parameters, a few up to 14; int/float/str/bool/dict/list, Optional[..], "
-                      "Literal[str..] with digits/underscores, typed defaults incl. None, with/without docs and return entry) + word-wrapped return entries "
+                      "Literal[str..] with arbitrary short printable-ASCII members (blank, hyphen, dot, +, brackets, …; a few with | ' \\ or only '' — outside the round-trip domain, oracle + emit/parse ties only), typed defaults incl. None, with/without docs and return entry) + word-wrapped return entries "
                       "(oracle only) + typed-default corner cases (correspondence only); non-trivial = in the model's domain with >=2 parameters, a Literal and a default; "
                       "mutants of emitted schemas for the meta-schema / instance-validation / parser ties")
 
 
+def _schema_region(S):
+    return "regex-metacharacter-member" if any("lit" in p["typ"] and g.has_meta(p["typ"]["lit"]) for _, p in S["params"]) else "plain"
+
+
 def _why(msg):
+    if "is not a 'regex'" in str(msg):
+        return "not-a-regex"
     m = re.search(r"is not of type '(\w+)'|does not match|non-unique|not valid under any", str(msg))
     return m.group(0) if m else "other"
 
@@ -851,7 +912,7 @@ def replay(path: str) -> int:
         pairs, src = validation_pairs(S, schema)
         vs, vv, _ = run_vt([schema], pairs, nproc=1)
         if vs[0] is not True:
-            fails.append(({"kind": "invalid-schema", "why": _why(vs[0])}, "check_schema: %s" % vs[0]))
+            fails.append(({"kind": "invalid-schema", "why": _why(vs[0]), "region": _schema_region(S)}, "check_schema: %s" % vs[0]))
         for (kind, nm, x), (a, b), res in zip(src, pairs, vv):
             f = oracle_validation(S, kind, nm, a, b, res)
             if f is not None:
